@@ -404,6 +404,8 @@ class Gen:
             name = self.choice(cands)
             divs = [c for c in range(1, n + 1) if n % c == 0]
             c_ = self.bcall("<builtin>transpose", [V(src), C(self.choice(divs))])
+            if self.p["kwargs"] and self.chance(60):
+                c_ = ["call", "<builtin>transpose", [], {"a": V(src), "a_cols": C(self.choice(divs))}]   # all by keyword
             self.define(name, ["carr", n])
         else:
             cands = [x for x in self.ARR_TEMPS if self.types.get(x, ["arr", n]) == ["arr", n]]
@@ -1138,6 +1140,15 @@ class Gen:
         if not self.p["ifs"] or depth >= self.p["max_depth"]:
             return []
         cond = self.bool_expr(self.draw(st.integers(0, 2)))
+        if self.chance(15):
+            # (A or B) and C  /  (A and B) or C  with plain comparisons: the printed form needs the parentheses
+            cm = lambda: ["cmp", self.real_leaf(), self.choice(["<", "<=", ">", ">="]), self.real_leaf()]   # noqa: E731
+            outer, inner = self.choice([("and", "or"), ("and", "or"), ("or", "and")])
+            ch = [[inner, cm(), cm()], cm()]
+            if self.chance(50):
+                ch.reverse()
+            cond = [outer] + ch
+            self.features.add("mixed_logic_guard")
         before = dict(self.defined)
         then = self.block(depth + 1, self.draw(st.integers(1, max(1, budget))), in_if=True)
         after_then = self.defined
